@@ -781,7 +781,18 @@ func c24judge(s []byte, B []c24breq) (*c24vio, string) {
 			want = append(want, n)
 		}
 		sort.Strings(want)
-		if !c24eqStrings(want, b.mapKeys) {
+		// identical duplicated Content-Length fields may be replaced by a single one (3.3.2)
+		dedupCL := func(l []string) []string {
+			var o []string
+			for _, x := range l {
+				if x == "content-length" && len(o) > 0 && o[len(o)-1] == x {
+					continue
+				}
+				o = append(o, x)
+			}
+			return o
+		}
+		if !c24eqStrings(dedupCL(want), dedupCL(b.mapKeys)) {
 			kind := "header-map-differs"
 			for _, m := range b.mapKeys {
 				if m == "content-length" && R.chunked {
